@@ -1,0 +1,16 @@
+//go:build verif
+
+package typescript
+
+// Contracts for the deductive verifier in /verif (govc). Comment-only file: with or without
+// the `verif` build tag it adds no declaration to the package.
+
+// ---------------------------------------------------------------- C09
+// skip lemma: a field that is not Exported() (unexported, json:"-" or gomacro:"ignore") leaves the loop
+// state untouched, so adding, removing or retyping such a field cannot change what the loop builds
+
+//@ func codeForStruct
+//@   props C09
+//@   requires t != nil && (forall i int :: 0 <= i && i < len(t.Fields) ==> t.Fields[i].Field != nil)
+//@   modifies *
+//@   loop t.Fields.1 endassert !field.Exported() ==> fields == athead(fields) && decls == athead(decls)
